@@ -271,5 +271,41 @@ def rule_arithmetic(ctx):
     ctx.ob(R, "sleep until the deadline", bool(sl), "acquire sleeps until that deadline (context-aware)", a.loc())
 
 
-RULES = [("C15.1", rule_cancel_safe), ("C15.2", rule_fifo), ("C15.3", rule_state_writers), ("C15.4", rule_open_permit), ("C15.5", rule_server_concurrency),
+
+def rule_monotone_refill_clock(ctx):
+    R = "C15.9"
+    ctx.rule(R, "the refill clock never moves backwards: State::advance writes refresh_ticks (and adds permits) only when the new tick is not older than the recorded one - otherwise a later advance would refill the same interval twice (more than burst + T/refresh grants in a window)")
+    ST = LIM + "::State"
+    f = ctx.fn(ST + "::advance")
+    T = ctx.T(f)
+
+    def m(a, b):
+        pa = a[0] == "param" and a[1] == 2
+        pb = b[0] == "param" and b[1] == 2
+        fa = chain(a)[1][-1:] == ["refresh_ticks"]
+        fb = chain(b)[1][-1:] == ["refresh_ticks"]
+        if pa and fb:
+            return 1
+        if pb and fa:
+            return -1
+        return 0
+    W = Walker(ctx, f, [Atom("cmp(new tick, recorded tick)", "cmp", m, ["<", "=", ">"])])
+    wr = [bb for bb in range(len(f.blocks)) for names, k, nd in Q.stmt_field_writes(f, bb, ST) if "refresh_ticks" in names]
+    ctx.floor(R, "writes of refresh_ticks in advance", len(wr), 1)
+    names, tab = W.table({"write": wr})
+    # `self.refresh_ticks = max(self.refresh_ticks, tick)` is monotone without a branch
+    vals = [T.rvalue(st["r"]) for bb in wr for st in f.blocks[bb]["s"] if st["k"] == "assign" and any(isinstance(e, dict) and e.get("n") == "refresh_ticks" for e in st["p"].get("pr", []))]
+    if vals and all(v[0] == "call" and v[1] in ("std::cmp::max", "std::cmp::Ord::max") and any(chain(x)[1][-1:] == ["refresh_ticks"] for x in v[2]) and any(x[0] == "param" and x[1] == 2 for x in v[2]) for v in vals):
+        ctx.ob(R, "clock write guarded", True, "refresh_ticks = max(recorded tick, new tick)", f.loc())
+        return
+    if len(set(map(frozenset, tab.values()))) == 1:
+        # no comparison of the two ticks at all: the write is unconditional
+        ctx.ob(R, "clock write guarded", False, "State::advance overwrites refresh_ticks without comparing the new tick with the recorded one: an older tick rewinds the refill clock", f.loc())
+        return
+    ok = "write" not in tab.get(("<",), {"write"}) and "write" in tab.get((">",), set())
+    ctx.ob(R, "clock write guarded", ok, "refresh_ticks is written only for a tick >= the recorded one" if ok else
+           "State::advance writes refresh_ticks for an older tick (write reachable by order of new vs recorded tick: %s): the refill clock can move backwards" % {k[0]: sorted(v) for k, v in tab.items()}, f.loc())
+
+
+RULES = [("C15.9", rule_monotone_refill_clock), ("C15.1", rule_cancel_safe), ("C15.2", rule_fifo), ("C15.3", rule_state_writers), ("C15.4", rule_open_permit), ("C15.5", rule_server_concurrency),
          ("C15.6", rule_rates_wired), ("C15.7", rule_burst), ("C15.8", rule_arithmetic)]
